@@ -7,6 +7,10 @@ from layout import Layout
 from alg import *
 
 
+class Hang(Exception):
+    """a loop ran past the unit's hang bound (units whose claim includes termination)"""
+
+
 class PathEnd(Exception):
     """current path is finished (infeasible, violation recorded, assumption false)"""
 
@@ -124,6 +128,7 @@ class Config:
         s.solver = 'default'
         s.flat = True
         s.keep_paths = False
+        s.hang_cap = 0             # when set: a block visited more often within one frame is a HANG finding (C08)
         s.cross_check = 0          # number of queries per unit also given to cvc5 (thorough tier)
         s.cross_check_ms = 10000
         for k, v in kw.items():
@@ -985,6 +990,9 @@ class Engine:
                 s.finish_path(st, 'returned')
             except PathEnd:
                 s.finish_path(st, 'ended')
+            except Hang as h:
+                s.fail(st, 'HANG', f'loop did not terminate within {s.cfg.hang_cap} iterations: {h}')
+                s.finish_path(st, 'ended')
             except Inconclusive as e:
                 s.note_inconclusive(str(e))
                 s.finish_path(st, 'inconclusive')
@@ -1025,6 +1033,8 @@ class Engine:
         fr.ip = 0
         n = fr.visits.get(label, 0) + 1
         fr.visits[label] = n
+        if s.cfg.hang_cap and n > s.cfg.hang_cap:
+            raise Hang(f'{fr.f.name} {label}')
         if n > s.cfg.loop_cap:
             raise Inconclusive(f'loop bound {s.cfg.loop_cap} exceeded in {fr.f.name} {label}')
 
@@ -1083,6 +1093,8 @@ class Engine:
             s.goto(stack2[-1], fl)
         except Inconclusive as e:
             work.pop(); s.note_inconclusive(str(e))
+        except Hang as h:
+            work.pop(); s.fail(st2, 'HANG', f'loop did not terminate within {s.cfg.hang_cap} iterations: {h}')
         s.goto(fr, tl)
 
     def concretize(s, st, stack, work, v, bits, what, limit=None):
